@@ -6,7 +6,7 @@ STD_SWAP = 'std::swap'
 def children(n):
     """direct child nodes (dicts) of an AST-lite node, in source order"""
     for k, v in n.items():
-        if k in ('owner', 'fta', 'ta', 'caps_t'):
+        if k in ('owner', 'fta', 'ta', 'caps_t', 'elem_of'):
             continue
         if isinstance(v, dict):
             if 'k' in v or 'l' in v:
@@ -103,6 +103,13 @@ def field_chain(e):
     if not isinstance(e, dict):
         return None
     k = e.get('k')
+    if k == 'ref' and e.get('elem_of') is not None:
+        # element variable of a range-for over a member container: some element of that container
+        base = field_chain(e['elem_of'])
+        if base:
+            c, f, _ = base[-1]
+            return base[:-1] + [(c, f, '*')]
+        return None
     if k == 'mem':
         base = field_chain(e.get('base')) or []
         return base + [(e['cls'], e['name'], None)]
